@@ -123,8 +123,10 @@ def weight_writers(prog) -> set:
     while changed:
         changed = False
         for g in prog.functions.values():
-            if g.fullname in allowed or not g.name.startswith("_") or g.name.startswith("__") or not g.module.name.startswith("geneticengine.grammar"):
+            if g.fullname in allowed or g.name.startswith("__") or not g.module.name.startswith("geneticengine.grammar"):
                 continue
+            if not any(isinstance(x, _ast.Constant) and x.value == "weight" for x in _ast.walk(g.node)):
+                continue      # only helpers that touch the weight entry are candidates
             callers = [f for f in prog.functions.values() if f is not g and f.module.name.startswith("geneticengine")
                        for c in _wl(f.node, include_nested=True) if isinstance(c, _ast.Call) and _cn(c) == g.name]
             if callers and all(f.fullname in allowed for f in callers):
